@@ -9,8 +9,13 @@ CfgOf(r) == [N |-> r.N, R |-> r.R, span |-> r.span, ge |-> r.ge, maxDelta |-> r.
 \* are those of the implementation's own tests (1e-2 planes, 2e-3 mm voxel size, 1e-2 mm origin)
 Near(x, unit, tol) == LET m == Mod(x + unit \div 2, unit) - unit \div 2 IN Abs(m) <= tol
 RoundTo(x, unit) == (x + unit \div 2 - Mod(x + unit \div 2, unit)) \div unit
+\* the interpolating matrix restricts x and y each to the part of the index range that is symmetric about 0
+SymHalf(lo, hi) == Min2(-lo, hi)
+SquareRange(r) == SymHalf(r.xmin, r.xmax) = SymHalf(r.ymin, r.ymax)
 GridOf(r) == [zmin |-> r.zmin, zmax |-> r.zmax, nppr |-> RoundTo(r.nppr1024, 1024), oz |-> RoundTo(r.oz1024, 1024),
-              square |-> Abs(r.vx - r.vy) <= 8, xy0 |-> Abs(r.ox) <= 40 /\ Abs(r.oy) <= 40, tilt |-> r.tilt # 0, geom |-> r.geom,
+              \* square voxels (and, for the patched interpolating matrix, the same symmetrised index range in x and y)
+              square |-> Abs(r.vx - r.vy) <= 8
+                         /\ ~(InterpSquareFixApplied /\ "impl" \in DOMAIN r /\ r.impl = "Interpolation" /\ ~SquareRange(r)), xy0 |-> Abs(r.ox) <= 40 /\ Abs(r.oy) <= 40, tilt |-> r.tilt # 0, geom |-> r.geom,
               \* use_actual_detector_boundaries is honoured only for data without mashing and axial compression
               uadb |-> "uadb" \in DOMAIN r /\ r.uadb /\ r.impl = "RayTracing" /\ r.mash = 1 /\ r.span = 1]
 SwOf(x) == [s90 |-> x[1] = 1, s180 |-> x[2] = 1, sseg |-> x[3] = 1, ss |-> x[4] = 1, sz |-> x[5] = 1]
